@@ -230,7 +230,7 @@ func cleanPathArg(b []byte) bool {
 	if s == "." {
 		return true
 	}
-	if s == "" || strings.HasPrefix(s, "-") || strings.HasPrefix(s, "/") || strings.HasSuffix(s, "/") {
+	if s == "" || strings.HasPrefix(s, "-") || strings.HasPrefix(s, "/") || strings.HasSuffix(s, "/") || strings.Contains(s, "@ROOT@") {
 		return false
 	}
 	for _, c := range strings.Split(s, "/") {
